@@ -104,6 +104,37 @@ def control_descriptor(flows, root_path, body_path, bb, within=None):
         for nm in opt_params:
             if desc_mentions(at["test"], lambda d: d[0] in ("place", "discr") and (d[1] == nm or d[1].startswith(nm + ".") or d[1].startswith(nm + " "))):
                 params.add(nm)
+    # `opt.map(|x| f(x))` runs f exactly when `opt` is Some: the closure body is "under opt" just as the
+    # Some arm of `match opt` is
+    if b.kind == "closure":
+        for (pp, s_) in flows.closure_sites(body_path):
+            pf = flows.of(pp)
+            cl = s_.lhs.local
+            for t in pf.b.calls():
+                if not t.callee or not t.callee.short.startswith("std::option::Option::") or len(t.args) < 2:
+                    continue
+                passed = False
+                for a in t.args[1:]:
+                    if a.place is None or a.place.proj:
+                        continue
+                    l = a.place.local
+                    hops = 0
+                    while l != cl and hops < 4:
+                        hops += 1
+                        d = pf.single_def(l)
+                        if d is None or getattr(d, "rv", None) is None or d.rv.k != "use" or d.rv.ops[0].place is None:
+                            break
+                        l = d.rv.ops[0].place.local
+                    if l == cl:
+                        passed = True
+                if not passed:
+                    continue
+                import panic as _panic
+
+                rd = _panic.norm(pf.describe(t.args[0], depth=8))
+                for nm in opt_params:
+                    if desc_mentions(rd, lambda d: d[0] in ("place", "discr") and (d[1] == nm or d[1].startswith(nm + ".") or d[1].startswith(nm + " "))):
+                        params.add(nm)
     return frozenset(params)
 
 
@@ -296,3 +327,87 @@ def producers(flows, body, operand, depth=0, seen=None):
             else:
                 out.add("<%s>" % rv.k)
     return out
+
+
+# ---------------------------------------------------------------------------------------------
+# canonical "is K a key of M" facts: the same test is written as contains_key(M, K), as
+# M.get(K).is_some() / is_none(), as `match M.get(K) { Some(..) / None }` (also behind
+# copied()/cloned()/map()/as_ref()), or as `if let Some(..) = M.get(K)`.  Rules compare the canonical
+# form, so replacing one idiom by another is not reported.
+OPTION_KEEPERS = ("copied", "cloned", "map", "as_ref", "as_deref", "as_mut", "inspect")
+LOOKUP_CALLS = ("get", "get_mut", "get_key_value")
+
+
+def value_of_named(fl, name_or_tmp):
+    """description of the single definition of a named local / temporary, or None"""
+    b = fl.b
+    if isinstance(name_or_tmp, int):
+        ls = [name_or_tmp]
+    else:
+        if "." in name_or_tmp or "[" in name_or_tmp or "*" in name_or_tmp:
+            return None
+        ls = b.locals_named(name_or_tmp)
+    if len(ls) != 1 or ls[0] <= b.arg_count:
+        return None
+    df = b.assigns_to(ls[0])
+    if len(df) != 1:
+        return None
+    return fl.describe_def(df[0][1], depth=10)
+
+
+def _peel_lookup(fl, d, depth=6):
+    """d describes an Option; -> (map_desc, key_desc) if it is [keepers]*(M.get(K))"""
+    while isinstance(d, tuple) and depth > 0:
+        depth -= 1
+        if d[0] == "place":
+            v = value_of_named(fl, d[1])
+            if v is None:
+                return None
+            d = v
+            continue
+        if d[0] == "tmp":
+            v = value_of_named(fl, d[1])
+            if v is None:
+                return None
+            d = v
+            continue
+        if d[0] != "call":
+            return None
+        last = d[1].split("::")[-1]
+        if last in OPTION_KEEPERS and d[2]:
+            d = d[2][0]
+            continue
+        if last in LOOKUP_CALLS and len(d[2]) >= 2 and ("HashMap" in d[1] or "BTreeMap" in d[1] or "IntMap" in d[1] or "HashSet" in d[1]):
+            return (d[2][0], d[2][1])
+        return None
+    return None
+
+
+def canon_exists(fl, test, val, sw=None):
+    """(map_desc, key_desc, present) when (test, val) states whether a key is in a map, else None"""
+    if not isinstance(test, tuple):
+        return None
+    if test[0] == "call":
+        last = test[1].split("::")[-1]
+        if last == "contains_key" and len(test[2]) == 2 and isinstance(val, bool):
+            return (test[2][0], test[2][1], val)
+        if last in ("is_some", "is_none") and test[2] and isinstance(val, bool):
+            r = _peel_lookup(fl, test[2][0])
+            if r:
+                return (r[0], r[1], val if last == "is_some" else not val)
+        return None
+    if test[0] == "discr" and len(test) >= 3 and str(test[2]).lstrip("&").startswith("std::option::Option<"):
+        r = _peel_lookup(fl, ("place", test[1]))
+        if r is None and test[1].startswith("_") and test[1][1:].isdigit():
+            r = _peel_lookup(fl, ("tmp", int(test[1][1:])))
+        if r is None:
+            return None
+        if isinstance(val, tuple) and len(val) == 1:
+            return (r[0], r[1], val[0] == 1)
+        if val == "otherwise" and sw is not None and not isinstance(sw, tuple):
+            at = fl.atom(sw)
+            listed = {v for (v, t) in at["targets"]}
+            rest = {0, 1} - listed
+            if len(rest) == 1:
+                return (r[0], r[1], rest.pop() == 1)
+    return None
